@@ -96,8 +96,12 @@ def fam_of_tokens(fam):
 # ---------------------------------------------------------------------------------------------------------
 # random histories, generated against the live implementation so that most calls are valid
 # ---------------------------------------------------------------------------------------------------------
+CURRENT = [None]      # the script under construction (for reporting when inspecting the implementation raises)
+
+
 class HistGen:
     def __init__(self, seed, pool='int', npoints=6, invalid=0.15, profile='mutators'):
+        CURRENT[0] = self
         self.rng = random.Random(seed)
         self.ex = Executor(pool)
         self.lines = []
@@ -149,7 +153,7 @@ class HistGen:
         pts = self.points(h)
         bad = rng.random() < self.invalid
         kind = rng.choice(['add0', 'add0', 'addf', 'addf', 'addb', 'addb', 'addb', 'del', 'delb', 'dels', 'restrict',
-                           'subdiv', 'relabel', 'setattr', 'dset'])
+                           'subdiv', 'relabel', 'relabel1', 'delsorder', 'setattr', 'dset'])
         if kind == 'add0':
             id = '-' if rng.random() < 0.3 else (rng.choice(names) if bad and names else self.fresh_tok())
             d = self.new_dict() if rng.random() < 0.3 else '-'
@@ -221,9 +225,20 @@ class HistGen:
             src = self.some(names, rng.randrange(1, 4))
             ren = []
             for s in src:
-                tgt = rng.choice(names) if (bad and rng.random() < 0.5) else self.fresh_tok()
+                tgt = rng.choice(names) if (bad and rng.random() < 0.5) else (self.fresh_tok() if rng.random() < 0.8 else 'u%d' % rng.randrange(10, 13))
                 ren.append('%s:%s' % (s, tgt))
             return self.do('relabel %s {%s}' % (h, ','.join(ren)))
+        if kind == 'relabel1':
+            if not names:
+                return None
+            src = rng.choice(names)
+            r = rng.random()
+            tgt = src if r < 0.15 else (rng.choice(names) if r < 0.3 else (self.fresh_tok() if r < 0.9 else 'u%d' % rng.randrange(10, 13)))
+            return self.do('relabel1 %s %s %s' % (h, src if not bad else rng.choice(names + [self.fresh_tok()]), tgt))
+        if kind == 'delsorder':
+            if rng.random() < 0.6:
+                return None
+            return self.do('delsorder %s %d' % (h, rng.randrange(0, 4)))
         if kind == 'setattr':
             if not names:
                 return None
